@@ -9,6 +9,9 @@
 //	             Put/Get/Delete/Query, a crash after the k-th store call of an
 //	             operation, and restart on the surviving content with every
 //	             permutation of the Query result.           oracle R1..R4
+//	part "sched:*" Engine B (verif/sched): 2-3 threads on colliding subscribers, every mutex operation
+//	             and every fake-store call a scheduling point, all schedules with <= 2 (thorough 3)
+//	             preemptions; R1/R2/R3 + stability at the end of every schedule (sched_test.go)
 //	part "r5-*"  IPAllocator, EpochBitmapAllocator, MemoryAllocationStore:
 //	             X' = Unmarshal(Marshal(X)) in every reachable X answers every
 //	             query identically and keeps doing so after each further op. R5
@@ -34,6 +37,7 @@ func TestCheck(t *testing.T) {
 	theT = t
 	run := report.New("C12", "model_checking")
 	run.Rule = "BFS over allocate/renew/release/epoch/remote-change/fault/crash/restart histories on the real DistributedAllocator over a fake ordered store (R1 restart = store content, R2 uniqueness, R3 agreement after a failed store call, R4 remote change applied as announced or refused); BFS over the real IPAllocator/EpochBitmapAllocator/MemoryAllocationStore with a Marshal/Unmarshal shadow compared on every query after every operation (R5)"
+	run.Rule += "; preemption-bounded enumeration of the interleavings of 2-3 concurrent Allocate/AllocateWithMAC/Release/Renew calls on colliding subscribers (store calls are scheduling points, n-th Put failing), R1/R2/R3/stability at the end of every schedule"
 	run.Assumptions = []string{
 		"store calls are atomic; a crash falls between store calls (the surviving content is the content after the k-th call)",
 		"clean stop and crash are the same event for the allocator: it has no shutdown hook, memory is simply lost",
@@ -49,6 +53,7 @@ func TestCheck(t *testing.T) {
 			m.Run(run)
 		}
 	}
+	runSched(run) // Engine B: interleavings (sched_test.go); runs after Engine A, one controlled execution at a time
 	os.Exit(run.Finish())
 }
 
@@ -57,6 +62,9 @@ func replay(run *report.Run, ms []*explore.Model) int {
 	if err != nil {
 		fmt.Println("HARNESS-ERROR", err)
 		return 2
+	}
+	if strings.HasPrefix(v.Part, "sched:") {
+		return replaySched(run, v)
 	}
 	for _, m := range ms {
 		if m.Name+"["+m.Config+"]" == v.Part {
